@@ -156,7 +156,15 @@ pub fn adjust(cfg: &mut SwarmCfg, tier: &str, r: &mut Prng) {
             setw(cfg, "burst", if r.chance(1, 3) { 3 } else { 0 });
             setw(cfg, "late_seq", 4);
             cfg.knobs.push(("dup-heavy".into(), 1));
-            if r.chance(1, 4) {
+            if r.chance(1, 5) {
+                // one sampled call of the crypto provider fails per operation: a send or a receive that fails for that
+                // reason leaves the ratchets where they were
+                cfg.scenario = "crypto-faults".into();
+                cfg.oracles.push("crypto-faults".into());
+                cfg.faults.push("C-ERR".into());
+                cfg.knobs.push(("sample-faults".into(), *r.pick(&[6u64, 20, 60])));
+                setw(cfg, "burst", 0);
+            } else if r.chance(1, 4) {
                 // many epochs with messages that arrive one or more epochs late (and again)
                 cfg.scenario = "late-epochs".into();
                 cfg.oracles.push("retention".into());
